@@ -103,12 +103,17 @@ PowExact(a, b) == \* cases in which every correct pow gives the same double
    \/ /\ FitsInt(a) /\ FitsInt(b) /\ ToInt(b) >= 0 /\ ToInt(b) <= 64
       /\ LET m == IF ToInt(a) < 0 THEN -ToInt(a) ELSE ToInt(a) IN m <= 1024 /\ (m <= 1 \/ ToInt(b) * (IF m <= 2 THEN 1 ELSE IF m <= 4 THEN 2 ELSE IF m <= 16 THEN 4 ELSE IF m <= 256 THEN 8 ELSE 10) <= 52)
 
+(* outside a moderate domain the platform's math library is only required to return some number (see DESIGN.md 3) *)
+Moderate(x) == FLe(Abs(x), Dec("1048576"))
+PowModerate(a, b) == Moderate(a) /\ FLe(Dec("0.00000095367431640625"), Abs(a)) /\ FLe(Abs(b), Dec("20"))
+
 Arith(op, x, y) ==
   CASE op = "-" -> Val(VNum(FSub(x, y)))
     [] op = "*" -> Val(VNum(FMul(x, y)))
     [] op = "/" -> (IF IsZero(y) THEN Err("zero") ELSE Val(VNum(FDiv(x, y))))
     [] op = "%" -> (IF IsZero(y) THEN Err("zero") ELSE Val(VNum(FMod(x, y))))
-    [] op = "**" -> (IF PowExact(x, y) THEN Val(VNum(FPow(x, y))) ELSE Val(VApprox(FPow(x, y), 64)))
+    [] op = "**" -> (IF PowExact(x, y) THEN Val(VNum(FPow(x, y)))
+                     ELSE IF PowModerate(x, y) THEN Val(VApprox(FPow(x, y), 64)) ELSE Val(VApprox(FPow(x, y), -1)))
     [] op = "<" -> Val(VBool(FLt(x, y)))
     [] op = "<=" -> Val(VBool(FLe(x, y)))
     [] op = ">" -> Val(VBool(FLt(y, x)))
@@ -168,9 +173,9 @@ PureNative(name, args) ==
   CASE name = "abs"   -> Num1(LAMBDA x : Val(VNum(Abs(x))), args)
     [] name = "sqrt"  -> Num1(LAMBDA x : Val(VNum(Sqrt(x))), args)
     [] name = "round" -> Num1(LAMBDA x : Val(VNum(Round(x))), args)
-    [] name = "sin"   -> Num1(LAMBDA x : IF TrigExact(x) THEN Val(VNum(Sin(x))) ELSE Val(VApprox(Sin(x), 4)), args)
-    [] name = "cos"   -> Num1(LAMBDA x : IF IsNaN(x) \/ IsInf(x) \/ IsZero(x) THEN Val(VNum(Cos(x))) ELSE Val(VApprox(Cos(x), 4)), args)
-    [] name = "tan"   -> Num1(LAMBDA x : IF TrigExact(x) THEN Val(VNum(Tan(x))) ELSE Val(VApprox(Tan(x), 8)), args)
+    [] name = "sin"   -> Num1(LAMBDA x : IF TrigExact(x) THEN Val(VNum(Sin(x))) ELSE Val(VApprox(Sin(x), IF Moderate(x) THEN 4 ELSE -1)), args)
+    [] name = "cos"   -> Num1(LAMBDA x : IF TrigExact(x) THEN Val(VNum(Cos(x))) ELSE Val(VApprox(Cos(x), IF Moderate(x) THEN 4 ELSE -1)), args)
+    [] name = "tan"   -> Num1(LAMBDA x : IF TrigExact(x) THEN Val(VNum(Tan(x))) ELSE Val(VApprox(Tan(x), IF Moderate(x) THEN 8 ELSE -1)), args)
     [] name = "pow"   -> IF Len(args) # 2 THEN Err("arity")
                          ELSE LET x == NumOperand(args[1])  y == NumOperand(args[2]) IN
                               IF x.r = "err" \/ y.r = "err" THEN Err("native")
